@@ -8,8 +8,8 @@
    (false) and the repaired behaviour (true):
      f12  the timer goroutine deletes only if its own removal is still the scheduled one
      f13  Register never overwrites a stored tree
-     f27  the window between the tree lookup and the registration of the new
-          instance is atomic with respect to instance-table operations
+     f27  the critical section that registers an instance created for a message stores
+          the looked-up tree again (Set: cancels a removal scheduled since the lookup)
      f28  dropping a message for a finished instance re-arms the removal that
           the lookup cancelled *)
 From Coq Require Import List Arith Bool Lia.
@@ -108,9 +108,6 @@ Definition remove_tree (s : st) (i : nat) : st :=
            (delivered s) (answers s) (S (next s))
   end.
 
-Definition window_busy (fx : fixes) (s : st) : bool :=
-  f27 fx && match hits s with [] => false | _ => true end.
-
 Definition mem_tok (k : tok) (l : list tok) : bool := existsb (tok_eqb k) l.
 Definition mem_nat (k : nat) (l : list nat) : bool := existsb (Nat.eqb k) l.
 
@@ -122,7 +119,6 @@ Definition step (fx : fixes) (s : st) (a : act) : option st :=
       Some (mkSt (upd (trees s) i TPresent) (cancel_deletion s i) (closed_after_cancel s i) (timers s) (inst s) (known s)
                  (created s) (hits s) (misses s) (regs s) (delivered s) (answers s) (next s))
   | LocalCreate k =>
-      if window_busy fx s then None else
       match inst s k with
       | INone =>
           Some (mkSt (trees s) (cancel s) (chclosed s) (timers s) (updk (inst s) k IStarting) (add_known k (known s))
@@ -139,7 +135,6 @@ Definition step (fx : fixes) (s : st) (a : act) : option st :=
       | _ => None
       end
   | MsgLookup k =>
-      if window_busy fx s then None else
       let i := tree_of k in
       match trees s i with
       | TPresent =>
@@ -159,7 +154,13 @@ Definition step (fx : fixes) (s : st) (a : act) : option st :=
                          (misses s) (regs s) (delivered s) (answers s) (next s) in
           if f28 fx && negb (in_use s1 (tree_of k)) then Some (remove_tree s1 (tree_of k)) else Some s1
       | INone =>
-          Some (mkSt (trees s) (cancel s) (chclosed s) (timers s) (updk (inst s) k IActive) (add_known k (known s))
+          (* newTreeNodeInstanceFromToken: one instancesLock section registers the instance and,
+             with the repair, stores the looked-up tree again *)
+          let i := tree_of k in
+          Some (mkSt (if f27 fx then upd (trees s) i TPresent else trees s)
+                     (if f27 fx then cancel_deletion s i else cancel s)
+                     (if f27 fx then closed_after_cancel s i else chclosed s)
+                     (timers s) (updk (inst s) k IActive) (add_known k (known s))
                      (updk (created s) k (S (created s k))) h (misses s) (regs s)
                      (k :: delivered s) (answers s) (next s))
       | IActive =>
@@ -192,7 +193,6 @@ Definition step (fx : fixes) (s : st) (a : act) : option st :=
       | _ => Some s                                 (* "ignoring tree that is not awaited" *)
       end
   | Done k =>
-      if window_busy fx s then None else
       match inst s k with
       | IActive =>
           let s1 := mkSt (trees s) (cancel s) (chclosed s) (timers s) (updk (inst s) k IDone) (known s) (created s)
